@@ -88,8 +88,9 @@ func props() map[string]Prop {
 				{Name: "race", Pkg: "internal/upload", Harness: "internal_upload", Run: "^TestVerifUploadRace$", Instrument: uploadInstr, Race: true, Timeout: 40 * time.Minute},
 				{Name: "faults", Pkg: "internal/upload", Harness: "internal_upload", Run: "^TestVerifC05Upload$", Instrument: append(append([]string{}, uploadInstr...), "internal/counter"), Timeout: 30 * time.Minute},
 				{Name: "procs", Pkg: "internal/upload", Harness: "internal_upload", Run: "^TestVerifUploadProcs$", Instrument: uploadInstr, Timeout: 40 * time.Minute},
+				{Name: "public", Pkg: "internal/upload", Harness: "internal_upload", Run: "^TestVerifC01Public$", Instrument: uploadInstr, Timeout: 30 * time.Minute},
 			},
-			Assume: []string{"counter names are valid UTF-8 and sums stay below 2^62 (reports carry int64 in JSON)", "counter files are produced by the independent writer in /verif/ref with the documented metadata"},
+			Assume: []string{"sums stay below 2^62 (reports carry int64 in JSON); counter names that are not valid UTF-8 are expected in reports as encoding/json renders them (U+FFFD per invalid byte)", "counter files are produced by the independent writer in /verif/ref with the documented metadata"},
 		},
 		{
 			ID: "C01", Level: "exploration",
